@@ -35,6 +35,17 @@ def rand_target(rng):
     return {'k': 'c', 'cls': rng.choice(['list', 'tuple']), 'items': [G.rand_scalar(rng) for _ in range(rng.randint(0, 3))]}
 
 
+def gen_default(rng):
+    """a default: argument value -- a scalar, or a plain container, possibly holding T / T[..]"""
+    if rng.random() < 0.65:
+        return G.rand_scalar(rng)
+    leaf = lambda: ({'k': 'targ', 'steps': gen_steps(rng) if rng.random() < 0.3 else []} if rng.random() < 0.5 else G.rand_scalar(rng))
+    cls = rng.choice(['list', 'tuple', 'dict'])
+    if cls == 'dict':
+        return {'k': 'c', 'cls': 'dict', 'items': [{'key': val(k), 'val': leaf()} for k in rng.sample(['a', 'b', 1], rng.randint(0, 2))]}
+    return {'k': 'c', 'cls': cls, 'items': [leaf() for _ in range(rng.randint(0, 2))]}
+
+
 def gen_steps(rng):
     return [{'k': 'slice', 'lo': rng.randint(0, 2)} if rng.random() < 0.2 else val(rng.choice(['a', 'b', 'bb', 0, 1, -1]))
             for _ in range(rng.randint(1, 2))]
@@ -65,7 +76,7 @@ def gen_atom(rng, mode, counter):
         sub = rng.choice([{'op': 'type', 't': rng.choice(['int', 'str', 'dict', 'object'])}, {'op': 'lit', 'v': G.rand_scalar(rng)},
                           {'op': 'list', 'alts': [{'op': 'type', 't': 'int'}]},
                           {'op': 'dict', 'items': [[{'op': 'type', 't': 'str'}, {'op': 'type', 't': 'int'}]]}])
-        return {'op': 'match', 'sub': sub, 'hasdef': hasdef, 'def': G.rand_scalar(rng) if hasdef else NONE}
+        return {'op': 'match', 'sub': sub, 'hasdef': hasdef, 'def': gen_default(rng) if hasdef else NONE}
     if mode == 'match':
         if rng.random() < 0.5:
             return {'op': 'type', 't': rng.choice(['int', 'str', 'bool', 'object', 'dict', 'list', 'NoneType'])}
@@ -113,7 +124,7 @@ def gen_tree(rng, mode, depth, counter):
         kids = [gen_tree(rng, mode, depth - 1, counter) for _ in range(rng.randint(1, 3))]
         form = 'op' if len(kids) >= 2 and op_left(kids[0]) and rng.random() < 0.5 else 'ctor'
         hasdef = form == 'ctor' and rng.random() < 0.3
-        p = {'op': op, 'c': kids, 'form': form, 'hasdef': hasdef, 'def': G.rand_scalar(rng) if hasdef else NONE}
+        p = {'op': op, 'c': kids, 'form': form, 'hasdef': hasdef, 'def': gen_default(rng) if hasdef else NONE}
         if form == 'op':
             # a & b & c is left-nested in Python: keep the AST binary so that it denotes what is written
             p['c'] = kids[:2]
@@ -128,4 +139,4 @@ def gen_tree(rng, mode, depth, counter):
     keys = [repr(k) for k, _ in cases]
     if rng.random() < 0.4 and len(set(keys)) == len(keys) and all(k['op'] not in ('mtruthy', 'msubt', 'lit', 'type') for k, _ in cases):
         form = 'dict'                # {key spec: value spec}: every key spec object is a distinct, hashable dict key
-    return {'op': 'switch', 'cases': cases, 'form': form, 'hasdef': hasdef, 'def': G.rand_scalar(rng) if hasdef else NONE}
+    return {'op': 'switch', 'cases': cases, 'form': form, 'hasdef': hasdef, 'def': gen_default(rng) if hasdef else NONE}
